@@ -103,9 +103,9 @@ TIERS["C18"] = {
         "controls": 99,
         "families": [
             {"Mode": "full", "NMets": 2, "NRxns": 3, "Pal": "PalMed", "Dirs": "DirsMax"},
-            {"Mode": "full", "NMets": 2, "NRxns": 4, "Pal": "PalS", "Dirs": "DirsMax"},
-            {"Mode": "rand", "NMets": 3, "NRxns": 5, "Pal": "PalMed", "Dirs": "DirsMax", "NWalks": 4000},
-            {"Mode": "rand", "NMets": 3, "NRxns": 6, "Pal": "PalS", "Dirs": "DirsMax", "NWalks": 1500},
+            {"Mode": "rand", "NMets": 2, "NRxns": 4, "Pal": "PalS", "Dirs": "DirsMax", "NWalks": 1500},
+            {"Mode": "rand", "NMets": 3, "NRxns": 5, "Pal": "PalMed", "Dirs": "DirsMax", "NWalks": 3000},
+            {"Mode": "rand", "NMets": 3, "NRxns": 6, "Pal": "PalS", "Dirs": "DirsMax", "NWalks": 1000},
             {"Mode": "rand", "NMets": 2, "NRxns": 4, "Pal": "PalInf", "Dirs": "DirsMax", "NWalks": 500},
         ],
         "exact_every": 0,
